@@ -26,6 +26,7 @@ use crate::iop::ext_target::ExtensionTarget;
 use crate::iop::target::Target;
 use crate::plonk::circuit_data::{CommonCircuitData, VerifierOnlyCircuitData};
 use crate::plonk::config::{GenericConfig, Hasher};
+use crate::plonk::validate_shape::validate_proof_shape;
 use crate::plonk::verifier::verify_with_challenges;
 use crate::util::serialization::{Buffer, Read, Write};
 
@@ -221,6 +222,9 @@ impl<F: RichField + Extendable<D>, C: GenericConfig<D, F = F>, const D: usize>
         let decompressed_proof =
             self.proof
                 .decompress(&challenges, fri_inferred_elements, &common_data.fri_params);
+        // The plain verifier validates the shape before anything else; without it the number of
+        // quotient identities checked below would be taken from the proof itself.
+        validate_proof_shape(&decompressed_proof, common_data)?;
         verify_with_challenges::<F, C, D>(
             decompressed_proof,
             public_inputs_hash,
